@@ -495,6 +495,7 @@ func (m *Master) finish() int {
 		}
 	}
 	nviol := 0
+	var unconfirmed []string
 	var knownSeen []string
 	var vioSummaries []map[string]any
 	for _, sig := range sortedKeys(bySig) {
@@ -514,8 +515,11 @@ func (m *Master) finish() int {
 			ok, why = m.confirm(v, 5)
 		}
 		if !ok {
-			fmt.Printf("HARNESS-ERROR property=%s violation %s not reproducible: %s\n", p.ID, sig, why)
-			exit = 2
+			// Not reproducible from its own payload in a fresh process.  If some other violation of
+			// this run is confirmed the verdict stands on that one (typical cause: the implementation
+			// leaks state between calls, so a case fails only after the cases run before it in the
+			// same worker); if none is, the run is a harness failure — never a VIOLATION line.
+			unconfirmed = append(unconfirmed, fmt.Sprintf("violation %s not reproducible: %s", sig, why))
 			continue
 		}
 		nviol++
@@ -531,6 +535,14 @@ func (m *Master) finish() int {
 		vioSummaries = append(vioSummaries, map[string]any{"sig": sig, "cases": t.VioCounts[sig], "desc": oneLine(v.Desc, 300)})
 		if exit == 0 {
 			exit = 1
+		}
+	}
+	for _, u := range unconfirmed {
+		if nviol > 0 {
+			fmt.Printf("UNCONFIRMED property=%s %s\n", p.ID, u)
+		} else {
+			fmt.Printf("HARNESS-ERROR property=%s %s\n", p.ID, u)
+			exit = 2
 		}
 	}
 	exhaustive := !t.Capped && t.TasksDone == t.Tasks && t.Fatal == ""
